@@ -41,6 +41,8 @@ def n_trace(ctx):
     ne = 30 if ctx.thorough else 12
     rc, cases, orc, other, err = waterlib.run_harness(
         ctx, "trace", ["-work", ex, "-lines", lf, "-seed", str(ctx.seed), "-water-every", "1000000000", "-nitro-every", str(ne)])
+    src, scases, sorc, serr = waterlib.run_sweep(ctx, " LeachingDepth=20")
+    rc, cases, orc, err = rc or src, cases + scases, orc + sorc, err + serr
     _tr["r"] = (rc, cases, orc, err)
     return _tr["r"]
 
